@@ -100,3 +100,208 @@ def influence(body, blocks=(), locals_=()):
                 todo_b.append(bb)
                 todo_l.extend(mirq.operand_locals_of_rv(s['rv']))
     return L, S
+
+
+# ---------------------------------------------------------------------------------------------------------------------
+# deep influence: data + control dependences with mutation through `&mut` references and closure summaries
+# ---------------------------------------------------------------------------------------------------------------------
+_SUMMARY = {}
+
+
+def _node_of_place(body, p):
+    """(local, upvar field | None): reads of a closure's captured variable `_1.k` / `(*_1).k` are kept apart per k"""
+    if body.kind == 'closure' and p['l'] == 1:
+        for e in p['p']:
+            if e == '*':
+                continue
+            if isinstance(e, dict) and 'f' in e:
+                return (1, e['f'])
+            break
+    return (p['l'], None)
+
+
+def _ref_root(body, local, depth=10):
+    """the node a reference local points into: follows `&mut X`, `&mut (*r)`, `r2 = r`, `r = _1.k`"""
+    cur = local
+    for _ in range(depth):
+        ds = body.defs().get(cur, [])
+        if len(ds) != 1 or ds[0][0] != 'stmt':
+            return None
+        rv = ds[0][3]['rv']
+        if rv['k'] in ('ref', 'rawptr'):
+            pl = rv['place']
+            n = _node_of_place(body, pl)
+            if n[1] is not None:
+                return n
+            if any(e == '*' for e in pl['p']):
+                cur = pl['l']
+                continue
+            return (pl['l'], None)
+        if rv['k'] in ('use', 'copyderef', 'cast'):
+            pl = rv.get('place') or op_place(rv.get('op') or {})
+            if pl is None:
+                return None
+            n = _node_of_place(body, pl)
+            if n[1] is not None:
+                return n
+            cur = pl['l']
+            continue
+        return None
+    return None
+
+
+def _closure_of(mir, body, local):
+    ds = body.defs().get(local, [])
+    if len(ds) == 1 and ds[0][0] == 'stmt' and ds[0][3]['rv']['k'] == 'agg' and ds[0][3]['rv'].get('ak') == 'closure':
+        return mir.by_id.get(ds[0][3]['rv'].get('def')), ds[0][3]['rv']
+    return None, None
+
+
+def closure_summary(mir, cb, depth=3):
+    """(ret_upvars, {k: upvars influencing the mutations of captured variable k})"""
+    if cb.id in _SUMMARY:
+        return _SUMMARY[cb.id]
+    _SUMMARY[cb.id] = (set(), {})        # recursion guard
+    nodes, ups = deep_influence(mir, cb, [(0, None)], depth - 1)
+    muts = {}
+    for (l, f), sites in _mutation_defs(mir, cb, depth - 1).items():
+        if l == 1 and f is not None:
+            seeds = []
+            for bb, deps in sites:
+                seeds += deps
+            n2, u2 = deep_influence(mir, cb, seeds, depth - 1, blocks=[bb for bb, _ in sites])
+            muts[f] = u2
+    _SUMMARY[cb.id] = (ups, muts)
+    return _SUMMARY[cb.id]
+
+
+def _mutation_defs(mir, body, depth):
+    """node -> [(bb, [dependency nodes])]: calls that receive a `&mut` reference to the node (or a closure that captured one)"""
+    out = {}
+    for bb, t in body.calls():
+        argnodes = []
+        for a in t['args']:
+            p = op_place(a)
+            if p is not None:
+                argnodes.append(_node_of_place(body, p))
+        for a in t['args']:
+            p = op_place(a)
+            if p is None or p['p']:
+                continue
+            ty = body.local_ty(p['l']) or ''
+            if ty.startswith('&mut'):
+                root = _ref_root(body, p['l'])
+                if root is not None:
+                    out.setdefault(root, []).append((bb, [n for n in argnodes if n != (p['l'], None)] + [(p['l'], None)]))
+            cb, agg = _closure_of(mir, body, p['l']) if depth > 0 else (None, None)
+            if cb is not None:
+                ret_u, muts = closure_summary(mir, cb, depth)
+                for k, infl in muts.items():
+                    if k >= len(agg['ops']):
+                        continue
+                    kp = op_place(agg['ops'][k])
+                    if kp is None:
+                        continue
+                    root = _ref_root(body, kp['l']) or (kp['l'], None)
+                    deps = [n for n in argnodes if n != (p['l'], None)]
+                    for j in infl:
+                        jp = op_place(agg['ops'][j]) if j < len(agg['ops']) else None
+                        if jp is not None:
+                            deps.append(_node_of_place(body, jp))
+                    out.setdefault(root, []).append((bb, deps))
+    return out
+
+
+def deep_influence(mir, body, seeds, depth=3, blocks=()):
+    """(nodes, upvars): everything the seed nodes (local, upvar) depend on inside `body` -- through statements, call arguments,
+    control dependence, mutation through &mut references, and closures (only the captured variables that influence what the
+    closure returns / mutates).  `upvars` = captured-variable indices of `body` itself (when it is a closure) in the result."""
+    cd = control_deps(body)
+    defs = body.defs()
+    pdefs = {}
+    for i, j, s in body.stmts():
+        if s['k'] == 'assign' and s['place']['p']:
+            pdefs.setdefault(_node_of_place(body, s['place']), []).append((i, s))
+    mdefs = _mutation_defs(mir, body, depth)
+    N, B, S = set(), set(), set()
+    seen = set()
+    last = len(body.blocks) - 1
+    todo_n = [(s_ if len(s_) == 3 else (s_[0], s_[1], None)) for s_ in seeds]     # (local, upvar, block of the use | None = anywhere)
+    todo_b = list(blocks)
+    _reach = {}
+
+    def reaches(x, y):
+        """can control flow from block x arrive at block y?"""
+        if y is None or x == y:
+            return True
+        if x not in _reach:
+            _reach[x] = body.reachable(x)
+        return y in _reach[x]
+
+    def rv_nodes(rv):
+        out = []
+        for key in ('op', 'a', 'b'):
+            if isinstance(rv.get(key), dict):
+                p = op_place(rv[key])
+                if p is not None:
+                    out.append(_node_of_place(body, p))
+        if 'place' in rv:
+            out.append(_node_of_place(body, rv['place']))
+        for o in rv.get('ops', []):
+            p = op_place(o)
+            if p is not None:
+                out.append(_node_of_place(body, p))
+        return out
+    while todo_n or todo_b:
+        while todo_b:
+            b = todo_b.pop()
+            if b in B:
+                continue
+            B.add(b)
+            for s in cd.get(b, ()):
+                if s not in S:
+                    S.add(s)
+                    p = op_place(body.term(s)['discr'])
+                    if p is not None:
+                        todo_n.append(_node_of_place(body, p) + (s,))
+                    todo_b.append(s)
+        while todo_n:
+            l, f, ub = todo_n.pop()
+            if (l, f, ub) in seen:
+                continue
+            seen.add((l, f, ub))
+            n = (l, f)
+            N.add(n)
+            # only definitions / mutations from which the use can be reached count (flow sensitivity at block granularity)
+            d_here = [d for d in (defs.get(l, []) if f is None else []) if reaches(d[1], ub)]
+            p_here = [d for d in pdefs.get(n, []) if reaches(d[0], ub)]
+            m_here = [d for d in mdefs.get(n, []) if reaches(d[0], ub)]
+            # which definition reaches a use is a matter of control only when there are several (assignments in different arms,
+            # pushes in a loop, ...); the mere reachability of a single definition says nothing about the value
+            several = len(d_here) + len(p_here) + len(m_here) >= 2
+            for kind, bb, idx, x in d_here:
+                if several:
+                    todo_b.append(bb)
+                if kind == 'call':
+                    for a in x['args']:
+                        p = op_place(a)
+                        if p is not None:
+                            todo_n.append(_node_of_place(body, p) + (bb,))
+                else:
+                    rv = x['rv']
+                    if rv['k'] == 'agg' and rv.get('ak') == 'closure' and depth > 0 and mir.by_id.get(rv.get('def')) is not None:
+                        ret_u, muts = closure_summary(mir, mir.by_id[rv['def']], depth)
+                        for k in ret_u:
+                            if k < len(rv['ops']) and op_place(rv['ops'][k]) is not None:
+                                todo_n.append(_node_of_place(body, op_place(rv['ops'][k])) + (bb,))
+                    else:
+                        todo_n.extend(x_ + (bb,) for x_ in rv_nodes(rv))
+            for bb, s in p_here:
+                if several:
+                    todo_b.append(bb)
+                todo_n.extend(x_ + (bb,) for x_ in rv_nodes(s['rv']))
+            for bb, deps in m_here:
+                if several:
+                    todo_b.append(bb)
+                todo_n.extend(x_ + (bb,) for x_ in deps)
+    return N, {f for (l, f) in N if f is not None}
